@@ -32,6 +32,7 @@ SCORE_KINDS = [
     "float16",
     "huge",  # magnitudes near the top of the float64 range (sums of two scores may overflow, products do)
     "subnormal",  # magnitudes in the subnormal range (relative epsilons vanish, spacing is absolute)
+    "clustered",  # tiny spread around a large offset (spread/|offset| down to 1e-12): absolute/relative "closeness" shortcuts misfire
     "negzero",  # scores rounded to one decimal: +0.0 and -0.0 both occur (equal as numbers, different bit patterns)
 ]
 
@@ -128,6 +129,10 @@ def scores(rng, min_pos=0, min_neg=0, maxn=40, kinds=None, big=False):
     elif kind == "subnormal":
         sc_ = float(rng.choice([5e-324, 1e-310, 2.0 ** -1040]))
         pos, neg = rng.integers(-4, 9, npos) * sc_, rng.integers(-8, 5, nneg) * sc_
+    elif kind == "clustered":
+        base = float(rng.choice([100.0, 1e6, -1e4, 1.0, 0.5]))
+        spread = float(10.0 ** -rng.uniform(3, 10))
+        pos, neg = base + spread * rng.normal(0.5, 1, npos), base + spread * rng.normal(-0.5, 1, nneg)
     elif kind == "negzero":
         w = float(rng.choice([0.02, 0.08, 0.3]))  # narrow: most of a class is one signed zero
         mp, mn = (float(x) for x in rng.choice([-0.02, 0.02], 2))
@@ -217,7 +222,7 @@ def stat_class(pos, neg):
     return (bucket(len(pos)), bucket(len(neg)), "tw" if tie_in else "-", "tx" if tie_x else "-", pos.dtype.kind + neg.dtype.kind)
 
 
-FORMS = ["array", "array", "array", "list", "tuple", "readonly", "strided", "fortran2d"]
+FORMS = ["array", "array", "array", "list", "tuple", "readonly", "strided", "fortran2d", "series"]
 
 
 def apply_form(a, form):
@@ -237,6 +242,10 @@ def apply_form(a, form):
         buf = np.empty(2 * a.size + 1, dtype=a.dtype)
         buf[::2][: a.size] = a.ravel()
         return buf[::2][: a.size].reshape(a.shape)
+    if form == "series" and a.ndim == 1:  # a pandas Series with a non-default index: positional and label-based indexing differ
+        import pandas as pd
+
+        return pd.Series(a, index=(np.arange(a.size)[::-1] * 3 + 1))
     if form == "fortran2d" and a.ndim >= 2:
         return np.asfortranarray(a)
     return a
